@@ -186,7 +186,9 @@ class Client:
                 raise Response(m.group(1), m.group(2))
         return ret
 
-    def __read_response(self, nblines: int = -1) -> Tuple[bytes, bytes, bytes]:
+    def __read_response(
+        self, nblines: int = -1, quote_literals: bool = False
+    ) -> Tuple[bytes, bytes, bytes]:
         """Read a response from the server.
 
         In the usual case, we read lines until we find one that looks
@@ -195,6 +197,8 @@ class Client:
         If *nblines* > 0, we read excactly nblines before returning.
 
         :param nblines: number of lines to read (default : -1)
+        :param quote_literals: insert literals as quoted strings, so that
+                               their content can't be taken for something else
         :rtype: tuple
         :return: a tuple of the form (code, data, response). If
         nblines is provided, code and data can be equal to None.
@@ -209,8 +213,13 @@ class Client:
                 data = inst.data
                 break
             except Literal as inst:
-                resp += self.__read_block(inst.value)
-                if not resp.endswith(CRLF):
+                block = self.__read_block(inst.value)
+                complete = (resp + block).endswith(CRLF)
+                if quote_literals:
+                    block = block.replace(b"\\", b"\\\\").replace(b'"', b'\\"')
+                    block = b'"' + block + b'"'
+                resp += block
+                if not complete:
                     resp += self.__read_line() + CRLF
                 continue
             if not len(line):
@@ -266,6 +275,7 @@ class Client:
         withcontent: bool = False,
         extralines: Optional[List[bytes]] = None,
         nblines: int = -1,
+        quote_literals: bool = False,
     ) -> Tuple[str, str, bytes]:
         """Send a command to the server.
 
@@ -282,6 +292,7 @@ class Client:
                             or not
         :param extralines: a list of extra lines to sent after the command
         :param nblines: the number of response lines to read (all by default)
+        :param quote_literals: get literals of the response as quoted strings
 
         :returns: a tuple of the form (code, data[, response])
 
@@ -294,7 +305,7 @@ class Client:
         if extralines:
             for l in extralines:
                 self.sock.sendall(l + CRLF)
-        code, data, content = self.__read_response(nblines)
+        code, data, content = self.__read_response(nblines, quote_literals)
 
         if isinstance(code, bytes):
             code = code.decode("utf-8")
@@ -636,19 +647,19 @@ class Client:
 
         :returns: a 2-uple (active script, [script1, ...])
         """
-        code, data, listing = self.__send_command("LISTSCRIPTS", withcontent=True)
+        code, data, listing = self.__send_command(
+            "LISTSCRIPTS", withcontent=True, quote_literals=True
+        )
         if code == "NO":
             return None
         ret: List[str] = []
         active_script: str = None
         for l in listing.splitlines():
-            if self.__size_expr.match(l):
-                continue
-            m = re.match(rb'"([^"]+)"\s*(.+)', l)
+            m = re.match(rb'"((?:[^"\\]|\\.)*)"\s*(.*)$', l)
             if m is None:
                 ret += [l.strip(b'"').decode("utf-8")]
                 continue
-            script = m.group(1).decode("utf-8")
+            script = re.sub(rb"\\(.)", rb"\1", m.group(1)).decode("utf-8")
             if self.__active_expr.match(m.group(2)):
                 active_script = script
                 continue
